@@ -326,6 +326,7 @@ func main() {
 	// 2. call sequences, in process
 	oversizedReport(run)
 	timedOutRound(run)
+	repeatedLaunchRound(run)
 	for s := 0; s < *nseq; s++ {
 		r := hx.Rng(*seed, s)
 		g := dbx.NewGen(r, "general")
@@ -749,6 +750,52 @@ func min(a, b int) int {
 		return a
 	}
 	return b
+}
+
+// repeatedLaunchRound: the leader proposes the launch round again (its read of the launched flag failed or was stale): the
+// DB ignores it (count 0). The rounds after it are ordinary rounds on the same long-lived session and must be applied and
+// delivered like any other.
+func repeatedLaunchRound(run *hx.Run) {
+	h := nhx.NewDrummerDBHost()
+	defer h.Close()
+	srv := drummer.VerifNewServer(h.NH)
+	rounds := drummer.VerifNewRounds(h.NH)
+	launch := func(a string, rid uint64) *pb.NodeHostRequest {
+		return &pb.NodeHostRequest{Change: &pb.Request{Type: pb.Request_CREATE, ShardId: 1, Members: []uint64{1, 2, 3}}, ReplicaIdList: []uint64{1, 2, 3},
+			AddressList: []string{"l1", "l2", "l3"}, InstantiateReplicaId: rid, RaftAddress: a, AppName: "app"}
+	}
+	batch := []*pb.NodeHostRequest{launch("l1", 1), launch("l2", 2), launch("l3", 3)}
+	kill := func(s uint64) *pb.NodeHostRequest {
+		return &pb.NodeHostRequest{Change: &pb.Request{Type: pb.Request_KILL, ShardId: s, Members: []uint64{7}}, RaftAddress: "l1"}
+	}
+	n1, err1 := rounds.UpdateRequests(batch)
+	n2, err2 := rounds.UpdateRequests(batch)
+	n3, err3 := rounds.UpdateRequests([]*pb.NodeHostRequest{kill(8)})
+	n4, err4 := rounds.UpdateRequests([]*pb.NodeHostRequest{kill(9), kill(10)})
+	run.Count("case:repeated_launch_round_probe")
+	if err1 != nil || err2 != nil || err3 != nil || err4 != nil {
+		run.Count("c17:inconclusive_repeated_launch_round")
+		return
+	}
+	reply, err := srv.ReportAvailableNodeHost(ctx(), &pb.NodeHostInfo{RaftAddress: "l1", RPCAddress: "rpc-l1", Region: "reg0"})
+	if err != nil {
+		run.Count("c17:inconclusive_repeated_launch_round")
+		return
+	}
+	got := []string{}
+	for _, rq := range reply.Requests {
+		got = append(got, dbx.ReqStr(rq))
+	}
+	want := []string{dbx.ReqStr(kill(9)), dbx.ReqStr(kill(10))}
+	run.Count("c17:repeated_launch_round_checked")
+	if n1 != 3 || n2 != 0 || n3 != 1 || n4 != 2 || strings.Join(got, ",") != strings.Join(want, ",") {
+		ops := []string{fmt.Sprintf("launch round (3 requests) acknowledged with count %d", n1), fmt.Sprintf("the same launch round again: count %d", n2),
+			fmt.Sprintf("round [kill shard 8] acknowledged with count %d", n3), fmt.Sprintf("round [kill shard 9, kill shard 10] acknowledged with count %d", n4), "report of l1"}
+		for _, p := range []string{"C10", "C17"} {
+			run.Violate(hx.Violation{Property: p, Clause: "latest_batch_delivered", Signature: "round-after-ignored-launch-round-not-delivered",
+				What: fmt.Sprintf("after a launch round that the DB ignored (already launched), the rounds acknowledged with counts %d and %d carried %v for l1 last; its report was answered with %v", n3, n4, want, got), Ops: ops})
+		}
+	}
 }
 
 // timedOutRound: a scheduling round whose proposal is applied only after the leader has given up waiting for it, then a
